@@ -65,6 +65,8 @@ func runC08(r *engine.Run) {
 	r.Rule("LOCK-order", "see C16: mutexes that are ever held together are always taken in the same order (BlockCache.mu -> StateCache.lock in a lookup against StateCache.lock -> BlockCache.mu in commit would deadlock a lookup with the commit of its own block)")
 	r.Rule("WHO-layers", "see C07: the key->versions map is installed into only by the commit path and removed from only by Remove - a lock-free lookup that re-registers the map it fetched earlier replaces the map a later commit created, so that block's committed write is lost without any eviction; setValue/commit are reachable only from the commit entry points")
 	r.Rule("KEY-same", "see C06: entries are stored under the key and block hash they belong to, tombstone arms store deleted=true, Set stores a new live entry (a write that inherits a tombstone flag is committed as a removal: after the commit has returned, lookups at the block miss its own write)")
+	r.Rule("DOM-sethash", "see C07: SetBlockHash stores its argument as the block's hash on every path")
+	domSetHash(r, "DOM-sethash")
 	r.NotDec = append(r.NotDec, "that every interleaving of the lock-free StateCache.Get with a commit yields the block-tree-determined value (needs exploration of interleavings)")
 	const rule = "LOCK-statecache"
 	entries := exportedEntries(r, rule, pkgSC, scOwners)
